@@ -92,6 +92,23 @@ class SSet:
         return f'<set {self.t}>'
 
 
+class SAnyObj:
+    """an object used only through calls of its methods, which have no effect we track (a logger)"""
+
+    def __init__(self, name):
+        self.name = name
+
+    def hm_truth(self, interp):
+        return True
+
+    def hm_getattr(self, interp, name, node):
+        from .interp import Builtin
+        return Builtin(f'{self.name}.{name}', lambda i, args, kwargs, n: ())
+
+    def __repr__(self):
+        return f'<anyobj {self.name}>'
+
+
 # -- snapshots ---------------------------------------------------------------------------------------
 
 def deep_copy(v, memo):
@@ -113,6 +130,8 @@ def deep_copy(v, memo):
         return c
     elif isinstance(v, dict):
         c = {k: deep_copy(x, memo) for k, x in v.items()}
+    elif isinstance(v, list):
+        c = [deep_copy(x, memo) for x in v]
     else:
         return v
     memo[id(v)] = c
@@ -138,6 +157,11 @@ def sx_old(interp, args, kwargs, node):
 def sx_ghost(interp, args, kwargs, node):
     vr = interp.world.verifier
     return vr.ghost[args[0]]
+
+
+def sx_ghost_obj(interp, args, kwargs, node):
+    """an object the contract's prepare hook registered under a name (a closure variable of the function)"""
+    return interp.world.verifier.ghost_objs[args[0]]
 
 
 def sx_old_ghost(interp, args, kwargs, node):
@@ -198,7 +222,7 @@ def sx_has_field(interp, args, kwargs, node):
     return isinstance(o, SObj) and name in o.fields
 
 
-SPEC_BUILTINS = {'old': sx_old, 'ghost': sx_ghost, 'old_ghost': sx_old_ghost, 'is_member': sx_is_member,
+SPEC_BUILTINS = {'ghost_obj': sx_ghost_obj, 'old': sx_old, 'ghost': sx_ghost, 'old_ghost': sx_old_ghost, 'is_member': sx_is_member,
                  'set_empty': sx_set_empty, 'set_subset': sx_set_subset, 'same_set': sx_same_set,
                  'set_is_added': sx_set_is_added, 'same_obj': sx_same_obj, 'has_field': sx_has_field}
 
